@@ -371,7 +371,27 @@ def _pinned_item_form(col):
         col.violation('item-form-inplace-result', f'after raw_values[0] *= 2; raw_values[-1] -= 1 the document reads {common.pr(f)!r}, values {got!r}', {})
 
 
-PINNED = [('item-form in-place operators', _pinned_item_form)]
+def _pinned_cost_form(col):
+    """`cost.raw_number_per *= 2`, `cost.raw_number_total += 1`: the node, edited in place, is stored back through the cost setters."""
+    P = common.parser()
+    for text, attr, o, want_text, want in (
+            ('2000-01-01 *\n  Assets:A 1 USD {1.5 USD, 2000-01-01}\n', 'raw_number_per', '*', '{1.5 * 2 USD, 2000-01-01}', D('3.0')),
+            ('2000-01-01 *\n  Assets:A 1 USD {{3}}\n', 'raw_number_total', '+', '{{3 + 2}}', D(5)),
+            ('2000-01-01 *\n  Assets:A 1 USD {1.5 # 3 USD}\n', 'raw_number_total', '-', '{1.5 # 3 - 2 USD}', D(1))):
+        f = P.parse(text, models.File)
+        c = f.directives[0].postings[0].cost
+        col.ev()
+        try:
+            setattr(c, attr, IOPS[o](getattr(c, attr), 2))
+        except Exception as e:
+            col.violation('cost-form-inplace-raised', f'cost.{attr} {o}= 2 raised {type(e).__name__}: {e}; the document now reads {common.pr(f)!r}', {'text': text})
+            return
+        if want_text not in common.pr(f) or getattr(c, attr).value != want:
+            col.violation('cost-form-inplace-result', f'after cost.{attr} {o}= 2 the document reads {common.pr(f)!r}', {'text': text})
+            return
+
+
+PINNED = [('item-form in-place operators', _pinned_item_form), ('in-place operators through the cost properties', _pinned_cost_form)]
 
 def derive(counters):
     counters['forms_seen'] = sum(1 for k in counters if k.startswith('form:'))
